@@ -36,12 +36,16 @@ FINDINGS = {
                                     "process ask for 160 GB and die with `fatal error: runtime: out of memory` (not recoverable)",
 }
 
-# (the map32 threshold `eq:78:dfffffffff` also dies, but only after the library has filled the
-#  whole address-space limit table by table — ~1 min; it is recorded in the replay file only)
+# (line, address-space limit in GiB).  On the unrepaired code the map32 threshold dies only after the
+# library has filled the whole limit table by table, so it gets a small one.
 PROBES = [
-    "ap 81a17801 - merge:6d:dfffffffff",
-    "ap dfffffffff -",
-    "ap 81a178a161 eq:78:ddffffffff",
+    ("ap 81a17801 - merge:6d:dfffffffff", 4),      # extractTopLevelFields
+    ("ap dfffffffff -", 4),                        # parseMap on the body
+    ("parse ddffffffff", 4),                       # parseArray
+    ("ap 81a17801 - set:78:ddffffffff", 4),        # op value validated with Parse
+    ("ap 81a178a161 eq:78:ddffffffff", 4),         # threshold → generic decoder, slice
+    ("ap 81a178a161 eq:78:dfffffffff", 2),         # threshold → generic decoder, map
+    ("ap 81a178c0 eq:78:92dfffffffffc0", 2),       # … nested
 ]
 
 
@@ -289,7 +293,21 @@ def ref_op(t, kind, path, val):
                 if tc is None or tc != dc:
                     raise RefErr("type")
                 if tc == "f":
-                    raise Skip("float arithmetic is checked by the model correspondence only")
+                    # IEEE double addition (Python floats), then the target's own width
+                    if tv != tv or dv != dv:
+                        raise Skip("NaN payloads are checked by the model correspondence only")
+                    s = tv + dv
+                    if s != s:
+                        raise Skip("NaN result")
+                    if tgt[1][0] == 0xca:
+                        try:
+                            enc = struct.pack(">f", s)
+                        except OverflowError:
+                            enc = struct.pack(">f", float("inf") if s > 0 else float("-inf"))
+                        put(hit[1], ("L", b"\xca" + enc))
+                    else:
+                        put(hit[1], ("L", b"\xcb" + struct.pack(">d", s)))
+                    return (node[0], kids)
                 code = tgt[1][0]
                 if tw is None:      # fixint target: the documented rule widens to 64 bits
                     code, tw = (0xcf, 8) if tc == "u" else (0xd3, 8)
@@ -417,6 +435,103 @@ def cond_nan(body, cond):
     return is_nan_leaf(node[1]) or thr_nan
 
 
+def _payload(raw):
+    """('s'|'b', content) of a str / bin leaf, else None"""
+    c = raw[0]
+    if 0xa0 <= c <= 0xbf:
+        return "s", raw[1:]
+    hdr = {0xd9: 2, 0xda: 3, 0xdb: 5, 0xc4: 2, 0xc5: 3, 0xc6: 5}.get(c)
+    if hdr is None:
+        return None
+    return ("s" if c >= 0xd9 else "b"), raw[hdr:]
+
+
+def ref_cond(t, cond):
+    """Is the condition met by the document, evaluated with exact integers / IEEE doubles?
+    True / False, or None when the reference has no opinion (errors, NaN, foreign classes)."""
+    op, path, thr = cond[0], unhex(cond[1]), unhex(cond[2])
+    if op == "unk":
+        return None
+    try:
+        segs = ref_path(path)
+    except RefErr:
+        return None
+    node, exists = t, True
+    for k, s in enumerate(segs):
+        if s[0] == "f":
+            if node[0] != "M":
+                return None if op not in ("ex", "nex") else (op == "nex")
+            hit = [v for kk, v in node[1] if kk == s[1]]      # duplicate keys: the first is the field
+            if not hit:
+                exists = False
+                break
+            node = hit[0]
+        elif s[0] == "i":
+            if node[0] != "A":
+                return None if op not in ("ex", "nex") else (op == "nex")
+            n = s[1] + len(node[1]) if s[1] < 0 else s[1]
+            if not 0 <= n < len(node[1]):
+                return None                                   # out of range: a path error, not "unmet"
+            node = node[1][n]
+        else:
+            if k != len(segs) - 1:
+                return None
+            if node[0] != "A":
+                return None if op not in ("ex", "nex") else (op == "nex")
+            exists = False
+    leaf = exists and node[0] == "L"
+    if op == "ex":
+        return leaf
+    if op == "nex":
+        return not leaf
+    if not leaf:
+        return False
+    try:
+        if dec_all(thr)[0] != "L":
+            return None
+    except Malformed:
+        return None
+    a, b = node[1], thr
+    ac, av, _ = _num(a)
+    bc, bv, _ = _num(b)
+    if ac is not None or bc is not None:
+        if ac != bc:
+            return None
+        if ac == "f" and (av != av or bv != bv):
+            return None
+        c = (av > bv) - (av < bv)
+    else:
+        pa, pb = _payload(a), _payload(b)
+        if pa is not None and pb is not None and pa[0] == pb[0]:
+            c = (pa[1] > pb[1]) - (pa[1] < pb[1])
+        elif a[0] in (0xc2, 0xc3) and b[0] in (0xc2, 0xc3):
+            c = (a[0] > b[0]) - (a[0] < b[0])
+        else:
+            return None
+    return {"eq": c == 0, "ne": c != 0, "gt": c > 0, "ge": c >= 0, "lt": c < 0, "le": c <= 0}[op]
+
+
+def _first_diff(x, y, path=""):
+    """first position where two generic trees differ: (path, left, right)"""
+    if x[0] != y[0] or x[0] == "L":
+        return (path, x, y) if x != y else None
+    if x[0] == "M":
+        for i, ((ka, va), (kb, vb)) in enumerate(zip(x[1], y[1])):
+            if ka != kb:
+                return (path + "{%d}" % i, ("K", ka), ("K", kb))
+            d = _first_diff(va, vb, path + "." + ka.decode("latin1"))
+            if d:
+                return d
+    else:
+        for i, (va, vb) in enumerate(zip(x[1], y[1])):
+            d = _first_diff(va, vb, path + "[%d]" % i)
+            if d:
+                return d
+    if len(x[1]) != len(y[1]):
+        return (path, ("len", len(x[1])), ("len", len(y[1])))
+    return None
+
+
 def value_malformed(ops):
     """does the op list splice a value that is not exactly one well-formed, string-keyed value?"""
     for k, _, v in ops:
@@ -444,6 +559,15 @@ def oracle_line(op, rep):
                 return (fid, "reported success, but the real parser rejects the output body %s" % f[1])
             if cond_nan(body, cond):
                 return ("C13-nan-compares-equal", "condition %s is met although an operand is NaN" % ":".join(cond))
+            # success ⇒ the condition, evaluated numerically by the reference, is met
+            if cond is not None:
+                try:
+                    met = ref_cond(dec_all(body), cond)
+                except Malformed:
+                    met = None
+                if met is False:
+                    return (None, "condition %s is NOT met by the document (exact integer / IEEE comparison), but the patch was applied"
+                            % ":".join(cond))
             # success ⇒ the output decodes to what the documented semantics give
             try:
                 t = dec_all(body)
@@ -457,7 +581,23 @@ def oracle_line(op, rep):
             except Malformed:
                 return (None, "reported success on a body / with an output the reference decoder rejects")
             if got != t:
-                return (None, "output %s does not decode to the document the documented semantics give" % f[1])
+                d = _first_diff(got, t)
+                if d and d[1][0] == "L" and d[2][0] == "L" and _num(d[1][1])[0] and _num(d[2][1])[0] \
+                        and d[1][1][0] != d[2][1][0] and any(k == "inc" for k, _, _ in ops):
+                    return (None, "INC does not keep the target's numeric format: at `%s` the output holds %s (code %02x), the documented "
+                            "rule gives %s (code %02x)" % (d[0].lstrip("."), d[1][1].hex(), d[1][1][0], d[2][1].hex(), d[2][1][0]))
+                where = " (first difference at `%s`: got %s, expected %s)" % (
+                    d[0].lstrip("."), d[1][1].hex() if d[1][0] in ("L", "K") else d[1], d[2][1].hex() if d[2][0] in ("L", "K") else d[2]) if d else ""
+                return (None, "output %s does not decode to the document the documented semantics give%s" % (f[1], where))
+        elif rep == "err cond" and cond is not None:
+            # failure with CONDITION_NOT_MET ⇒ the reference agrees that it is not met
+            try:
+                met = ref_cond(dec_all(body), cond)
+            except Malformed:
+                met = None
+            if met is True:
+                return (None, "condition %s IS met by the document (exact integer / IEEE comparison), but the patch was rejected as "
+                        "CONDITION_NOT_MET" % ":".join(cond))
         return None
     if op.startswith("pf "):
         f = op.split(" ")
@@ -489,13 +629,12 @@ def spec_violated(rep):
 
 # ------------------------------------------------------------------ allocation probe (memory-limited child)
 def probe(ctx, drv_args):
-    """Each probe line in its own `hx run` child with RLIMIT_AS = 4 GiB.  Returns (crashed lines, mismatching lines)."""
+    """Each probe line in its own memory-limited (RLIMIT_AS) `hx run` child.  Returns (crashed lines, mismatching lines)."""
     hx = os.path.join(K.BIN, "hx")
-
-    def limit():
-        resource.setrlimit(resource.RLIMIT_AS, (4 << 30, 4 << 30))
     crashed, wrong = [], []
-    for line in PROBES:
+    for line, gib in PROBES:
+        def limit(g=gib):
+            resource.setrlimit(resource.RLIMIT_AS, (g << 30, g << 30))
         try:
             _, model, _ = K.run_lines([K.drv_path(), "C13", *drv_args], line + "\n", timeout=60)
             p = subprocess.run([hx, "run", "C13"], input=line + "\n", stdout=subprocess.PIPE, stderr=subprocess.PIPE,
@@ -529,7 +668,6 @@ def run(ctx):
         ctx.violation("harness does not build against /repo", {"correspondence": "C13", "log": getattr(ctx, "hx_log", "")[-2000:]},
                       tag="build", found_input=False)
     K.decide_standard(ctx, corrs, FINDINGS)
-    K.report_mismatch(ctx, spec_violated)
     known = K.known_ids(ctx.pid)
     c = corrs[0][2] if corrs else K.Corr()
     # Spec oracle over every implementation reply (independent of the model)
@@ -546,10 +684,16 @@ def run(ctx):
             oracle_hits.setdefault(fid, []).append(i)
             if i not in mism and fid not in c.flags[i]:
                 oracle_new.append((i, "oracle classifies as %s but the model does not flag the line: %s" % (fid, text)))
+    # a broken correspondence: if the oracle decides some reply of this run, that concrete failing input is the
+    # report (the mismatch count goes into the replay); otherwise the first mismatching case is reported
+    if oracle_new and getattr(ctx, "pending_mismatch", None) is not None:
+        ctx.cov["correspondence_mismatches_explained_by_oracle"] = len(c.mismatch)
+        ctx.pending_mismatch = None
+    K.report_mismatch(ctx, spec_violated)
     for i, text in oracle_new[:3]:
         cs = K.case_of(c, i)
         rep = K.case_replay(c, [cs[0], i] if cs[0] != i else [i])
-        rep.update({"correspondence": "C13", "oracle": text})
+        rep.update({"correspondence": "C13", "oracle": text, "mismatching_lines_in_run": len(c.mismatch)})
         ctx.violation("implementation violates the property: " + text, rep, tag="oracle")
     for fid, idx in oracle_hits.items():
         if fid not in known and fid not in getattr(ctx, "confirmed", {}):
@@ -574,7 +718,8 @@ def run(ctx):
     crashed, wrong = ([], [])
     if corrs and not c.err:
         crashed, wrong = probe(ctx, args)
-        ctx.cov["alloc_probe"] = {"lines": PROBES, "crashed": [l for l, _ in crashed], "limit": "RLIMIT_AS 4 GiB"}
+        ctx.cov["alloc_probe"] = {"lines": [l for l, _ in PROBES], "crashed": [l for l, _ in crashed],
+                                  "limit": "RLIMIT_AS 2-4 GiB per child"}
         if crashed:
             if pid_f in known:
                 ctx.known_hits.append((pid_f, FINDINGS[pid_f]))
@@ -584,7 +729,7 @@ def run(ctx):
                                "replay_cmd": "(ulimit -v 4194304; printf '%s\\n' | bin/hx run C13)" % crashed[0][0]}, tag=pid_f)
         elif pid_f in known:
             ctx.violation("listed finding %s no longer reproduces (allocation probe answered every line)" % pid_f,
-                          {"finding": pid_f, "probes": PROBES}, tag="drift", found_input=False)
+                          {"finding": pid_f, "probes": [l for l, _ in PROBES]}, tag="drift", found_input=False)
         for line, out, mod in wrong[:1]:
             ctx.violation("allocation probe: implementation and model disagree", {"ops": [line], "impl": [out], "model": [mod]},
                           tag="corr", found_input=False)
